@@ -77,7 +77,11 @@ def correspondence(ctx):
     cases = []
     with G.TmpDir() as tmp:
         for i in range(ctx.n(150, 1200)):
-            objs, fp, tree = _base(rnd, tmp)
+            try:
+                objs, fp, tree = _base(rnd, tmp)
+            except Exception as e:
+                rep.disagree('loader.base cache cannot be written', 'ok', G.unexpected(e), {'case': i})
+                continue
             nontrivial = any(t.effects for t in objs[0])
             cases.append(('intact', tree, nontrivial))
             for _ in range(ctx.n(12, 25)):
@@ -186,12 +190,16 @@ def oracle(ctx):
         for n in range(ctx.n(12, 60)):
             objs = G.fit_objs(rnd)[0] if n % 3 == 2 else _base(rnd, tmp)[0]
             fp = 'v%d_0.0.0.dev10' % (n + 1)
-            w = G.JsonCacheHandler(good)
-            w.update_cache(objs, fp)
-            data = open(good, 'rb').read()
-            reference = G.mem_of(G.JsonCacheHandler(good))
+            try:
+                G.JsonCacheHandler(good).update_cache(objs, fp)
+                data = open(good, 'rb').read()
+                reference = G.mem_of(G.JsonCacheHandler(good))
+            except Exception as e:
+                rep.violate('writing and re-reading an intact cache raised: %s' % G.unexpected(e), {'objs': G.c_objs(objs)})
+                continue
             if G.is_empty(reference):
-                raise C.InfraError('reference file loads as empty')
+                rep.violate('an intact cache file loads as empty', {'objs': G.c_objs(objs), 'fp': fp})
+                continue
             # --- every prefix length (a crash at any byte of the non-atomic write)
             outcomes = {'empty': 0, 'complete': 0, 'bad': 0}
             for k in range(len(data) + 1):
